@@ -251,6 +251,9 @@ func c20Mutations(u *vfUnit, valid vfPkt) []c20Mut {
 	subs := []vfPkt{
 		{Type: rfStatus, ID: valid.ID, Code: rfOK}, {Type: rfStatus, ID: valid.ID, Code: rfEOF, Msg: "EOF"}, {Type: rfStatus, ID: valid.ID, Code: rfFailure, Msg: "boom"},
 		{Type: rfStatus, ID: valid.ID, Code: 0xFFFFFFFF, Msg: "?"},
+		// (every status code of the protocol, and one beyond a byte: some are given a meaning of their own by callers)
+		{Type: rfStatus, ID: valid.ID, Code: rfNoSuchFile, Msg: "no"}, {Type: rfStatus, ID: valid.ID, Code: rfPermDenied, Msg: "no"}, {Type: rfStatus, ID: valid.ID, Code: rfBadMessage, Msg: "bad"},
+		{Type: rfStatus, ID: valid.ID, Code: rfNoConn, Msg: "nc"}, {Type: rfStatus, ID: valid.ID, Code: rfConnLost, Msg: "cl"}, {Type: rfStatus, ID: valid.ID, Code: rfUnsupported, Msg: "unsupported"}, {Type: rfStatus, ID: valid.ID, Code: 256, Msg: "256"},
 		{Type: rfHandle, ID: valid.ID, Handle: "zz"}, {Type: rfHandle, ID: valid.ID, Handle: ""},
 		// well-formed handles longer than the 256 bytes the draft allows (every later request has to carry them)
 		{Type: rfHandle, ID: valid.ID, Handle: strings.Repeat("h", 257)}, {Type: rfHandle, ID: valid.ID, Handle: strings.Repeat("H", 4096)},
